@@ -480,9 +480,9 @@ def run(ctx):
                     now = env.NOW
                     issued = now + side * (86400 + slack) + off
                     text = STYLES[st](fields(issued))
-                    obj = types.SimpleNamespace(timeslack=slack, response=types.SimpleNamespace(issue_instant=text))
+                    obj = _status_response(slack, text)
                     with env.Clock(now):
-                        got = real(fn, obj)
+                        got = real(obj.issue_instant_ok)
                     show = dict(unit="time", fn="issue_instant_ok", now=now, slack=slack, text=text)
                     c6.append(dict(id=len(c6), coq="(%s, %s, %s)" % (cz(now), cz(slack), cstr(text)), impl=got, show=show))
                     want = now - 86400 - slack <= issued < now + 86400 + slack
@@ -492,6 +492,18 @@ def run(ctx):
                         ctx.oracle_fail("text-order-differs-from-instant-order:issue_instant:%s" % st,
                                         "IssueInstant %r at now=%d allowance=%d: %r (window test on instants: %r)" % (text, now, slack, got, want), show)
     ctx.correspond("time_issue_window", IMPORTS, "run_issue_window", "(Z * Z * str)", c6)
+
+
+def _status_response(slack, text):
+    """a REAL StatusResponse object (so that whatever private helpers the method uses exist) carrying only the two things the
+    window test reads: the allowance and the IssueInstant text of the parsed message"""
+    from saml2_tophat.response import StatusResponse
+    class _AnySec(object):          # the constructor only stores bound methods of the security context; none is called here
+        def __getattr__(self, name):
+            return None
+    obj = StatusResponse(_AnySec(), timeslack=slack)
+    obj.response = types.SimpleNamespace(issue_instant=text)
+    return obj
 
 
 def replay(payload_input):
@@ -526,7 +538,7 @@ def replay(payload_input):
             print("instant(time_stamp=%d) at now=%d ->" % (c["stamp"], c["now"]), real(time_util.instant, FMT, c["stamp"]))
     elif fn == "issue_instant_ok":
         from saml2_tophat.response import StatusResponse
-        obj = types.SimpleNamespace(timeslack=c["slack"], response=types.SimpleNamespace(issue_instant=c["text"]))
+        obj = _status_response(c["slack"], c["text"])
         with env.Clock(c["now"]):
-            print("issue_instant_ok(%r) at now=%d allowance=%d ->" % (c["text"], c["now"], c["slack"]), real(StatusResponse.issue_instant_ok, obj))
+            print("issue_instant_ok(%r) at now=%d allowance=%d ->" % (c["text"], c["now"], c["slack"]), real(obj.issue_instant_ok))
     return 0
